@@ -156,7 +156,7 @@ def gen_pool(rng, cfg, world) -> dict:
         t = rng.choice([t for t in cfg["types"] if t != "Widget"] or ["Item"])
         form = rng.choice(["let", "let", "From"])
         v = {"n": n, "t": t, "dom": rng.choice(doms), "kind": rng.choice(cfg["kinds"]), "form": form}
-        if "kw" in cfg["vocab"] and rng.random() < 0.3:
+        if "kw" in cfg["vocab"] and rng.random() < cfg.get("kw_p", 0.3):
             v["form"] = "kw"
             v["kw"] = {rng.choice(["a", "b"]): rng.choice(world["vals"])}
         vars_.append(v)
@@ -204,8 +204,9 @@ def _walk(t, fn, under=()):
             _walk(x, fn, under)
 
 
-def query_regions(q) -> set:
-    """Names of the known-defect regions this query spec lies in."""
+def query_regions(q, forms=None) -> set:
+    """Names of the known-defect regions this query spec lies in.  `forms` maps variable name -> declaration form
+    (needed only for the region about kwargs-form variables)."""
     kinds = set()
     rep_arg = []
     disj_under_not = []
@@ -260,6 +261,11 @@ def query_regions(q) -> set:
         out.add("disjunction_of_multi_variable_conjunction")
     if _rule_kinds(q.get("rule") or {}) & {"alternative", "next"}:
         out.add("rule_tree_with_alternative_or_next")
+    if forms:
+        used = set(q.get("sel", [])) | _vars_in(q.get("conds", [])) | _vars_in(q.get("head", [])) | \
+            _vars_in(q.get("rule", {}))
+        if sum(1 for v in used if forms.get(v) == "kw") >= 2:
+            out.add("several_kwargs_form_variables")
     return out
 
 
@@ -310,8 +316,9 @@ def _root_var(t):
 
 def pool_regions(pool) -> set:
     out = set()
+    forms = {v["n"]: v.get("form", "let") for v in pool["vars"]}
     for q in pool["queries"]:
-        out |= query_regions(q)
+        out |= query_regions(q, forms)
     return out
 
 
@@ -333,7 +340,11 @@ def gen_world_and_pool(rng, cfg, want_region=None, tries=60):
                     "disjunction+nested_query": ["nest"], "predicate_with_repeated_variable": ["fp", "cp"],
                     "disjunction_over_different_variables": [],
                     "disjunction_of_multi_variable_conjunction": [],
-                    "rule_tree_with_alternative_or_next": []}[want_region]
+                    "rule_tree_with_alternative_or_next": [],
+                    "several_kwargs_form_variables": ["kw"]}[want_region]
+            if want_region == "several_kwargs_form_variables":
+                cfg["n_vars"] = max(cfg["n_vars"], 2)
+                cfg["kw_p"] = 0.8
             if want_region == "disjunction_of_multi_variable_conjunction":
                 cfg["depth"] = max(cfg["depth"], 2)
             if want_region in ("disjunction_over_different_variables", "disjunction_of_multi_variable_conjunction"):
@@ -346,6 +357,11 @@ def gen_world_and_pool(rng, cfg, want_region=None, tries=60):
         for q in pool["queries"]:
             if query_regions(q):
                 q["conds"] = []
+        if pool_regions(pool):
+            for v in pool["vars"]:
+                if v.get("form") == "kw":
+                    v["form"] = "let"
+                    v.pop("kw", None)
         return world, pool
     # could not hit the wanted region exactly: keep only queries that are in that region alone or in none
     world, pool = last
